@@ -19,7 +19,8 @@ EXTENDS Integers, Sequences, FiniteSets, TLC
 
 CONSTANTS Mode,          \* "free": the environment picks every answer;  "planned": Init picks a whole plan
           MaxHops,       \* free mode: at most this many 3xx answers
-          Deviations,    \* named deviations of the Model: "D10" (as the code is), "D1", "NoJoin", ... (self-tests)
+          Deviations,    \* named deviations of the Model (all repaired or hypothetical; used as non-vacuity gates):
+                         \* "D1", "D10", "AbsentOnly", "EmptyIsMissing", "NoJoin", "KeepBody303", "FirstHopOnly", "IgnorePort"
           CfgSet,        \* set of caller configurations
           PlanSet(_),    \* planned mode: the plans (sequences of 3xx answers) tried for a configuration
           HopAlphabet(_, _)   \* free mode: the 3xx answers possible for (cfg, current url)
@@ -73,7 +74,12 @@ WireKinds(m) == {x[1] : x \in m.hdrs}
 (* A policy value: [kind, total, redirect, raise, remove, rmsp], kind in none/false/int/retry.    *)
 
 NonePol == [kind |-> "none", total |-> N, redirect |-> N, raise |-> TRUE, remove |-> DefaultRemove, rmsp |-> "default"]
-Pol(c) == IF c.reqpol.kind # "none" THEN c.reqpol ELSE c.clipol       \* request level first, then pool / manager
+\* Request level first, then pool / manager constructor.  A request-level None -- the kwarg omitted, or passed
+\* explicitly as retries=None (c.reqnone) -- means "use the lower level".
+Pol(c) == IF c.reqpol.kind # "none" THEN c.reqpol ELSE c.clipol
+\* The headers in effect: the request's own mapping when it supplies one (c.carrier # "none", whatever it holds),
+\* otherwise the pool / manager-level defaults.  Defaults never come back once the request's mapping is in use.
+EffHdrs(c) == IF c.carrier # "none" THEN c.hdrs ELSE c.dhdrs
 Managed(c) == c.client \in {"pm", "proxy"}
 Disabled(c) == \/ ~c.flag
                \/ Pol(c).kind = "false"
@@ -103,7 +109,7 @@ GAfter(c, g, hop, m) ==
 MsgClause(c, g, hop, m, payload, skip) ==
     LET first == g.n = 0
         g2 == GAfter(c, g, hop, m)
-        supplied == KindsIn(c.hdrs)
+        supplied == KindsIn(EffHdrs(c))
         must(k) == /\ ~(k \in RemoveSet(c))                     \* sensitive kinds: stripping early is over-caution
                    /\ ~(k = "ctype" /\ g2.s303)                 \* content headers go with the body
         on(name) == ~(name \in skip)         \* clauses of the other property of the pair can be switched off
@@ -123,7 +129,7 @@ MsgClause(c, g, hop, m, payload, skip) ==
     ELSE IF on("OthersKeepMethodBody") /\ ~first /\ hop.code # 303 /\ (m.method # g.lm.method \/ m.body # g.lm.body)
          THEN "OthersKeepMethodBody"
     ELSE IF on("SensitiveStripped") /\ Managed(c) /\ g2.tainted /\ WireKinds(m) \cap RemoveSet(c) # {} THEN "SensitiveStripped"
-    ELSE IF on("OthersPreserved") /\ \E k \in supplied : must(k) /\ ~(<<k, Join(ValsOf(c.hdrs, k))>> \in m.hdrs)
+    ELSE IF on("OthersPreserved") /\ \E k \in supplied : must(k) /\ ~(<<k, Join(ValsOf(EffHdrs(c), k))>> \in m.hdrs)
          THEN "OthersPreserved"
     ELSE "ok"
 
@@ -170,7 +176,9 @@ FromInt(p, flag, default) ==
 \* poolmanager.py: retries = kw.get("retries"); if None: the constructor's; if not a Retry: from_int
 MgrDerive(c) ==
     LET r == IF c.reqpol.kind # "none" THEN c.reqpol
-             ELSE IF "D1" \in Deviations THEN NonePol ELSE c.clipol IN
+             ELSE IF "D1" \in Deviations THEN NonePol
+             ELSE IF "AbsentOnly" \in Deviations /\ c.reqnone THEN NonePol     \* kw.get("retries", <constructor's>)
+             ELSE c.clipol IN
     FromInt(r, c.flag, NonePol)
 \* Retry.increment for a redirect response + is_exhausted
 Dec(x) == IF x = N THEN N ELSE IF x = F THEN -1 ELSE x - 1
@@ -180,8 +188,8 @@ NoRetry == RetryInit(N, N, TRUE, {})
 
 Init == \E c \in CfgSet : \E p \in (IF Mode = "planned" THEN PlanSet(c) ELSE {<<>>}) :
            /\ cfg = c /\ plan = p /\ pc = "derive" /\ eff = NoRetry
-           /\ cur = c.start /\ curform = "pathabs" /\ method = c.method /\ body = c.body /\ hdrs = c.hdrs
-           /\ resp = NoHop /\ outcome = NoOutcome /\ hist = <<>> /\ wire = <<>> /\ g = G0(c) /\ bad = "ok" /\ hdrsAlt = c.hdrs /\ allpx = (c.client = "proxy")
+           /\ cur = c.start /\ curform = "pathabs" /\ method = c.method /\ body = c.body /\ hdrs = EffHdrs(c)
+           /\ resp = NoHop /\ outcome = NoOutcome /\ hist = <<>> /\ wire = <<>> /\ g = G0(c) /\ bad = "ok" /\ hdrsAlt = EffHdrs(c) /\ allpx = (c.client = "proxy")
 
 First(b, c) == IF b = "ok" THEN c ELSE b
 Finish(out) == /\ outcome' = out /\ pc' = "done" /\ bad' = First(bad, EndClause(cfg, g, resp, out, {}))
@@ -284,7 +292,10 @@ ManagerRedirect ==
 Follow ==
     /\ pc = "incr" /\ ~IsExhausted(Increment(eff))
     /\ eff' = Increment(eff) /\ pc' = "attempt"
-    /\ UNCHANGED <<cfg, plan, cur, curform, method, body, hdrs, resp, outcome, hist, wire, g, bad, hdrsAlt, allpx>>
+    \* `if "headers" not in kw: kw["headers"] = self.headers` -- the key is present from the first call on, so the
+    \* defaults are not consulted again (deviation EmptyIsMissing: an emptied mapping is taken for a missing one)
+    /\ hdrs' = IF "EmptyIsMissing" \in Deviations /\ cfg.client # "pool" /\ hdrs = <<>> THEN cfg.dhdrs ELSE hdrs
+    /\ UNCHANGED <<cfg, plan, cur, curform, method, body, resp, outcome, hist, wire, g, bad, hdrsAlt, allpx>>
 
 \* MaxRetryError inside increment: re-raise, or hand out the last 3xx when raise_on_redirect is False
 Exhaust ==
